@@ -150,9 +150,16 @@ AllStr(xs) == \A i \in 1..Len(xs) : IsStr(xs[i])
 RECURSIVE InFragL(_), InFragLL(_), InFrag(_)
 InFragL(xs) == \A i \in 1..Len(xs) : InFrag(xs[i])
 InFragLL(ls) == \A i \in 1..Len(ls) : InFragL(ls[i])
+\* a text child directly in an argument of a {{..}} / {{{..}}} call must not hold "|" or a brace: to_wikitext
+\* writes it as it is, and the emitted text then has another argument structure than the tree
+\* (the parser never produces such a child: <nowiki>|</nowiki> arrives as an entity)
+ArgTextSafe(x) ==
+  \A i \in 1..Len(x.largs) : \A j \in 1..Len(x.largs[i]) :
+     IsStr(x.largs[i][j]) => \A k \in 1..Len(x.largs[i][j].s) : x.largs[i][j].s[k] \notin {"|", "{", "}"}
 InFrag(x) ==
   IF IsStr(x) THEN TRUE
   ELSE /\ InFragL(x.children) /\ InFragLL(x.largs) /\ InFragLL(x.defn)
+       /\ (x.kind \in {"TEMPLATE", "PARSER_FN", "TEMPLATE_ARG"} => ArgTextSafe(x))
        /\ CASE x.kind = "TEMPLATE" -> SimpleName(x) /\ \A i \in 2..Len(x.largs) : ArgClass(x.largs[i]) # "other"
             [] x.kind = "PARSER_FN" -> IsIf(x) \/ IsIfEq(x)
             [] x.kind = "TEMPLATE_ARG" -> Len(x.largs) \in {1, 2}
